@@ -164,6 +164,12 @@ class Scenario:
         if spec.get('wfail') is not None:
             sock.wfail = tuple(spec['wfail'])
         ses = make_session_class()(dh, sock)
+        base11 = bool(spec.get('base11'))
+        if base11:
+            from ncclient.transport.session import NetconfBase
+            ses._base = NetconfBase.BASE_11
+        def frame(x):
+            return (b'\n#%d\n' % len(x) + x + b'\n##\n') if base11 else x + b']]>]]>'
         ses.add_listener(NotificationHandler(ses._notification_q))
         self.ses, self.sock = ses, sock
         real_run = ses.run
@@ -240,13 +246,19 @@ class Scenario:
                     if k not in ('eof', 'err') and len(received()) < 1:
                         return
                     x = {'reply_noid': reply_xml(None), 'reply_unknown': reply_xml(UNKNOWN_ID),
-                         'notif': notif_xml(act[1]) if k == 'notif' else None, 'other': other_xml(None)}.get(k)
+                         'notif': notif_xml(act[1]) if k == 'notif' else None, 'other': other_xml(None)}.get(k, '')
                 if k == 'eof':
                     sock.eof = True
                 elif k == 'err':
                     sock.err = True
+                elif k == 'garbage':              # breaks RFC 6242 chunk framing (only meaningful under base 1.1)
+                    sock.inb.append(b'\n#x1\n<a/>\n##\n' if base11 else b'garbage without delimiter ')
+                elif k == 'nonxml':               # correctly framed, not XML
+                    sock.inb.append(frame(b'this is <<< not xml'))
+                elif k == 'badutf8':              # correctly framed, not UTF-8
+                    sock.inb.append(frame(b'<a>\xff\xfe</a>'))
                 else:
-                    sock.inb.append(x.encode() + b']]>]]>')
+                    sock.inb.append(frame(x.encode()))
                 S.effect('srv', act)
         for ci, ops in enumerate(spec['clients']):
             S.spawn('C%d' % ci, client(ci, ops))
@@ -289,6 +301,7 @@ class Scenario:
         rid_of_rpc, rid_of_id, labels, reg = {}, {}, [], []
         cur = {}                                  # client thread -> rid of the request in progress
         mode_err = False
+        client_closed = False
         def idn(mid):
             return 100 + rid_of_id[mid] if mid in rid_of_id else 7
         def notif_idx(raw):
@@ -346,6 +359,7 @@ class Scenario:
             elif k == 'tclear':
                 labels.append([14])
             elif k == 'close':
+                if th != 'W': client_closed = True
                 labels.append([16, 0 if th == 'W' else 1])
             elif k == 'exit':
                 labels.append([17])
@@ -353,14 +367,22 @@ class Scenario:
                 labels.append([18, 0 if e[2] is None else 1, 0 if e[2] is None else notif_idx(e[2].notification_xml)])
             elif k == 'errbcast':
                 mode_err = True
-                labels.append([19, self.err_code(e[2])])
+                code = self.err_code(e[2])
+                prev = next((l for l in reversed(labels) if l[0] in (5, 6, 7, 8, 9, 10, 11, 12, 20)), None)
+                explained = prev is not None and (prev[0] in (11, 12, 20) or (prev[0] == 8 and prev[2] == 0) or
+                                                  (prev[0] == 6 and prev[1] in (1, 4)))
+                if not explained and not client_closed:
+                    labels.append([21, code])         # the exception came out of parser.parse (framing / decoding)
+                labels.append([19, code])
         self.rid_of_rpc, self.reg = rid_of_rpc, reg
         return labels
     @staticmethod
     def err_code(err):
         from ncclient.transport.errors import SessionCloseError, TransportError
         from ncclient.operations.errors import OperationError, TimeoutExpiredError
+        from ncclient.transport.errors import NetconfFramingError
         if isinstance(err, SessionCloseError): return 1
+        if isinstance(err, NetconfFramingError): return 6
         if isinstance(err, TimeoutExpiredError): return 4
         if isinstance(err, OperationError): return 2
         if isinstance(err, TransportError): return 5
